@@ -23,7 +23,7 @@ class C06(Engine):
     prop = "C06"
     name = "history-sim"
     level = "exploration"
-    expected_kinds = {"history", "listing_perm", "hashseed", "path_spelling", "mixed_levels", "io_error_in_history", "abort_point", "interpreter_optimize", "volume_history"}
+    expected_kinds = {"history", "listing_perm", "hashseed", "path_spelling", "mixed_levels", "io_error_in_history", "abort_point", "interpreter_optimize", "volume_history", "ambient_env", "fd_limit"}
     rule_text = ("A run is an explicit history of analyses in one process forked from a pristine zygote: all ordered pairs over a "
                  "~50-file stress pool (every distinct fatal raise site / internal-error site reachable from the pools, state-stressing "
                  "files, one of each ordinary class), seeded histories of length 3..8 with varying options, read faults in predecessors "
@@ -177,6 +177,33 @@ class C06(Engine):
                 opts = OPTSETS_CLI[r.randrange(len(OPTSETS_CLI))]
                 ops.append({"op": "cli", "argv": list(opts) + sel, "opts": list(opts)})
             yield 3_000_000 + i, {"kind": "clihist", "probe_state": True, "tree": tree, "ops": ops}
+        # (c2) the ambient environment of the process (S10): time zone, terminal geometry, colour conventions, locale names, and a
+        #      descriptor limit a few above what is open - none of them is "the file's base name, content or the options"
+        TZS = ["CET-1CEST,M3.5.0,M10.5.0/3", "EST5EDT,M3.2.0,M11.1.0", "JST-9", "UTC0", "NZST-12NZDT,M9.5.0,M4.1.0/3", "<+0545>-5:45"]
+        AMBIENT = [("COLUMNS", ["20", "40", "80", "0", "x"]), ("LINES", ["24", "1"]), ("NO_COLOR", ["1", ""]), ("FORCE_COLOR", ["1"]),
+                   ("TERM", ["dumb", "xterm-256color", ""]), ("LANG", ["C", "tr_TR.UTF-8", "fr_FR.ISO-8859-1"]), ("LC_ALL", ["C", "POSIX"]),
+                   ("CLICOLOR_FORCE", ["1"]), ("HOME", ["/nonexistent"]), ("USER", ["marvin", ""]), ("MAIL", ["x@y.z"])]
+        dated = [f for f in all_ids if P.files[f]["name"].startswith("hdr_date")]
+        n_env = 160 if q else 4000
+        for i in range(n_env):
+            r = core.derive_rng("c06.env", self.seed, i)
+            k = r.choice([1, 2, 3, 4, 9, 12])
+            chosen = [(dated[r.randrange(len(dated))] if (dated and r.random() < 0.4) else all_ids[r.randrange(len(all_ids))]) for _ in range(k)]
+            tree, names = {}, []
+            for j, fid in enumerate(chosen):
+                tree[f"d{j}"] = {P.files[fid]["name"]: "@" + fid}
+                names.append(f"d{j}/{P.files[fid]['name']}")
+            env = {}
+            if r.random() < 0.6:
+                env["TZ"] = TZS[r.randrange(len(TZS))]
+            for name, vals in AMBIENT:
+                if r.random() < 0.2:
+                    env[name] = vals[r.randrange(len(vals))]
+            opts = OPTSETS_CLI[r.randrange(len(OPTSETS_CLI))]
+            op = {"op": "cli", "argv": list(opts) + (names if r.random() < 0.7 else ["."]), "opts": list(opts), "env": env}
+            if k >= 9:
+                op["fd_headroom"] = 6
+            yield 3_500_000 + i, {"kind": "clihist", "ambient": sorted(env) + (["fd_limit"] if k >= 9 else []), "tree": tree, "ops": [op]}
         # (d) path spelling / cwd
         n_sp = 120 if q else 2500
         for i in range(n_sp):
@@ -424,6 +451,14 @@ class C06(Engine):
             if got != want_cmp:
                 vs.append(mk(f"-> fatal vs alone {want[0]}",
                              {"op_index": i, "argv": op["argv"], "file": p, "observed": short_sig(got), "alone": short_sig(want)}))
+        if sc.get("ambient") is not None and end in ("exit", "returned"):
+            # every file of these one-invocation runs is requested: each must be answered (verdict or fatal line) whatever the
+            # ambient environment is
+            for p in sorted(set(tf) - matched):
+                vs.append(mk("a requested file got no answer under this ambient environment",
+                             {"op_index": i, "argv": op["argv"], "file": p, "ambient": sc.get("ambient"),
+                              "stdout_head": strip_ansi(o.get("stdout", ""))[:160]}))
+                break
         if sc.get("named") and end in ("exit", "returned"):
             # the file was requested under this path: its verdict must be reported under this path (and base name)
             for p in sorted(set(sc["named"]) - matched):
@@ -478,6 +513,12 @@ class C06(Engine):
             self.check_orders.add(core.sha(repr(b.get("checks"))))
             self.distinct.add(("listing", str(sc["boot"]["listing"]), sc["boot"].get("hide_pycache")))
         elif kind == "clihist":
+            if sc.get("ambient") is not None:
+                self.fire("ambient_env")
+                for a in sc["ambient"]:
+                    self.count("ambient", a)
+                if "fd_limit" in sc["ambient"]:
+                    self.fire("fd_limit")
             self.fire("history", len(ops) - 1)
             self.distinct.add(("cli", tuple(tuple(op["argv"]) for op in sc["ops"])))
         elif kind == "spelling":
